@@ -236,14 +236,18 @@ ApplyOp(op, r, st) ==
               THEN LET e == op.t[Index(l, lr) + 1] IN << Digits(e.idx, lr), e.ph >>
             ELSE IF op.g = "BLOCK"
               THEN LET RECURSIVE Run(_, _)
-                       Run(k, s) == IF k > Len(op.ops) THEN s ELSE Run(k + 1, ApplyOp(op.ops[k], lr, s))
+                       \* (the IF forces the new state before recursing: TLC passes arguments lazily and an unforced
+                       \*  accumulator becomes a chain of thunks as deep as the circuit is long)
+                       Run(k, s) == IF k > Len(op.ops) THEN s
+                                    ELSE LET s2 == ApplyOp(op.ops[k], lr, s) IN IF s2[2] >= 0 THEN Run(k + 1, s2) ELSE s2
                    IN Run(1, <<l, 0>>)
             ELSE Gate(op.g, op.p, l, lr)
       d2 == TLCEval([q \in 1..Len(r) |-> IF \E i \in 1..Len(loc) : loc[i] + 1 = q
                                  THEN g[1][CHOOSE i \in 1..Len(loc) : loc[i] + 1 = q] ELSE st[1][q]])
   IN << d2, NormPh(st[2] + g[2]) >>
 RECURSIVE SemRec(_, _, _, _)
-SemRec(ops, r, st, k) == IF k > Len(ops) THEN st ELSE SemRec(ops, r, ApplyOp(ops[k], r, st), k + 1)
+SemRec(ops, r, st, k) == IF k > Len(ops) THEN st
+                         ELSE LET s2 == ApplyOp(ops[k], r, st) IN IF s2[2] >= 0 THEN SemRec(ops, r, s2, k + 1) ELSE s2   \* IF: forces s2, see Run
 Sem(ops, r, b) == LET s == SemRec(ops, r, <<Digits(b, r), 0>>, 1) IN [idx |-> Index(s[1], r), ph |-> s[2]]
 SemTable(ops, r) == TLCEval([b \in 1..Dim(r) |-> Sem(ops, r, b - 1)])
 
